@@ -259,7 +259,7 @@ fn frame_ac12(tc: u8, code: u16, rng: &mut SplitMix) -> Vec<u8> {
 }
 
 pub fn run(ctx: &Ctx) {
-    ctx.set_rule("exhaustive enumeration: every 13-bit AC code with M=0 through DF0/4/16/20 frames, every 12-bit ME altitude code through TC 9-18 and 20-22 frames, every 16-bit gray2alt argument, every 13-bit decode_id13 argument; remaining frame bits from a seeded stream; then every code once more right after each neighbour one bit (13/12-bit fields and thorough: also two bits) away, on one thread. Every code is a non-trivial case; distinct = distinct (kind, carrier, code).");
+    ctx.set_rule("exhaustive enumeration: every 13-bit AC code with M=0 through DF0/4/16/20 frames, every 12-bit ME altitude code through TC 9-18 and 20-22 frames, every 16-bit gray2alt argument, every 13-bit decode_id13 argument; remaining frame bits from a seeded stream; then every code once more right after each neighbour one bit (thorough: also two bits) away and right after the other altitude field with the same value, on one thread. Every code is a non-trivial case; distinct = distinct (kind, carrier, code).");
     ctx.assume("independent Gillham encoder (reflected Gray D2..B4 + 5-cycle C code) is the standard's table; checked against published table points in unit tests");
     ctx.assume("0 ft in the 12-bit field may be reported as 0 or as unavailable (unsigned convention cannot distinguish)");
     let t = tables();
@@ -373,7 +373,7 @@ pub fn run(ctx: &Ctx) {
     let two = ctx.tier.pick(false, true);
     'adj: for bits in [13u32, 12, 16, 14] {
         let mut masks: Vec<u16> = (0..bits).map(|b| 1u16 << b).collect();
-        if two || bits <= 13 {
+        if two {
             for a in 0..bits {
                 for b in a + 1..bits {
                     masks.push((1u16 << a) | (1u16 << b));
@@ -397,8 +397,33 @@ pub fn run(ctx: &Ctx) {
             }
         }
     }
+    // the two altitude fields share the Gillham conversion: the same numeric value, and the same altitude, in the 12-bit
+    // field right before / after the 13-bit field
+    for c in 0..4096u16 {
+        for other in [c, ac12_to_ac13(c), c ^ 0x10] {
+            for order in [[("ac12", c), ("ac13", other)], [("ac13", other), ("ac12", c)]] {
+                n_adj += 2;
+                let mut ok = true;
+                for (i, (kind, code)) in order.iter().enumerate() {
+                    if let Err(mut e) = check_seq(&t, kind, &[*code]) {
+                        if i > 0 {
+                            e.signature = format!("{}:after-another-code", e.signature);
+                            e.detail = format!("{} (decoded right after {} code {:#06x})", e.detail, order[0].0, order[0].1);
+                            e.replay = json!({"kind": "mixed-sequence", "steps": order.iter().map(|(k, c)| json!([k, c])).collect::<Vec<_>>()});
+                        }
+                        ctx.judge(Err(e));
+                        ok = false;
+                        break;
+                    }
+                }
+                if !ok {
+                    break;
+                }
+            }
+        }
+    }
     ctx.evals(n_adj);
-    ctx.class_n("codes decoded right after a neighbour one or two bits away", n_adj);
+    ctx.class_n("codes decoded right after a neighbour one or two bits away, or after the other altitude field", n_adj);
     ctx.exhaustive.store(true, std::sync::atomic::Ordering::Relaxed);
 }
 
@@ -456,6 +481,16 @@ pub fn replay(ctx: &Ctx, v: &Value) {
             let c13 = ac12_to_ac13(code);
             let same = decoded_ac13(&frame_ac13(4, c13, &mut rng)).ok().map(|x| x.0);
             check_ac12(&t, tc, code, &f, same)
+        }
+        "mixed-sequence" => {
+            let mut r = Ok(());
+            for st in v["steps"].as_array().cloned().unwrap_or_default() {
+                r = check_seq(&t, st[0].as_str().unwrap_or("ac13"), &[st[1].as_u64().unwrap_or(0) as u16]);
+                if r.is_err() {
+                    break;
+                }
+            }
+            r
         }
         "sequence" => {
             let codes: Vec<u16> = v["codes"].as_array().map(|a| a.iter().map(|x| x.as_u64().unwrap_or(0) as u16).collect()).unwrap_or_default();
